@@ -1,3 +1,3 @@
-Require Import Files.
+Require Import Files FilesTotal.
 From Coq Require Import ExtrOcamlBasic.
-Extraction "fmodel.ml" history.
+Extraction "fmodel.ml" history xhistory.
